@@ -186,6 +186,8 @@ impl ClientLoop {
 
     pub(crate) async fn run(&mut self, io: &mut PhysLayer) -> SessionError {
         self.timeout_counter.reset();
+        // bytes and parser state left over from a previous connection must not leak into this one
+        self.reader.reset();
         loop {
             if let Err(err) = self.poll(io).await {
                 tracing::warn!("ending session: {err}");
